@@ -68,6 +68,27 @@ def gen(seed, tier):
         good = [g.any_frame(r.choice(pool)) for _ in range(r.randint(1, 5))]
         bad = [g.junk_line() for _ in range(r.randint(1, 5))]
         cases.append(H("C02-h%d" % i, {}, [seg(0, good), seg(0, bad)]))
+    # context independence: whether a line is a frame depends on its own digits only, whatever kind of line
+    # (skipped at whichever stage of the reader loop) came immediately before it in the same file
+    def contexts():
+        yield "empty", {}, ""
+        yield "junk", {}, g.junk_line()
+        yield "short", {}, g.any_frame()[:13]
+        yield "12digits", {}, "%012X" % r.getrandbits(48)
+        yield "badparity", {}, g.corrupt(g.f_df17())
+        yield "wronglen", {}, hx(df17(r.choice(ICAOS), g.me_ident()), 112)[:14]
+        yield "zero-df11", {}, hx(df11(0, 5), 56)
+        yield "zero-df17", {}, hx(df17(0, g.me_ident()), 112)
+        yield "zero-ap56", {}, hx(short_ap(r.choice([0, 4, 5]), 0, r.getrandbits(27)), 56)
+        yield "zero-ap112", {}, hx(long_ap(r.choice([16, 20, 21]), 0, r.getrandbits(27), r.getrandbits(56)), 112)
+        yield "filtered", {"f": "17"}, g.f_short(r.choice([4, 5]))
+        yield "df24", {}, hx(with_parity_ap((24 << 107) | r.getrandbits(83), 112, r.choice(ICAOS)), 112)
+    for rep in range(2 * reps):
+        for name, o, ctx in contexts():
+            probes = [g.f_df17(), g.decorate(g.f_df17()), "%012X" % r.getrandbits(48), g.f_short(5)[:2] + "%012X" % r.getrandbits(48),
+                      g.f_df17()[:14], g.f_df17()[14:], "%012X" % r.getrandbits(48) + g.f_df17(), g.f_df11(), ""]
+            for j, pr in enumerate(probes):
+                cases.append(H("C02-x%s-%d-%d" % (name, rep, j), dict(o), [seg(0, [ctx, pr]), seg(0, [g.f_df17()])]))
     return cases
 
 
@@ -92,6 +113,22 @@ def oracle(parts, outcome, obs):
         if not obs.startswith(want + " "):
             return "line %r: got %s, expected %s" % (line[:60], obs, want)
         df = fr[0] if fr != "zero" else None
+        return None
+    if parts[0].startswith("C02-x"):
+        # each line is judged on its own digits: the rows present are exactly the addresses of the lines that are frames
+        opts = pyspec.case_opts(parts)
+        segs = pyspec.case_segments(parts)
+        osegs = obs.split("#")
+        want = set()
+        for k, (t, lines) in enumerate(segs):
+            for ln in lines:
+                fr = pyspec.frame_of_line(ln)
+                if fr and fr != "zero" and pyspec.passes_filter(opts, fr[0]):
+                    want.add(fr[1])
+            got = set(pyspec.rows_of(osegs[k]).keys()) if k < len(osegs) else None
+            if got != want:
+                return "segment %d: rows %s, but the lines that are frames have addresses %s" % (
+                    k, sorted("%06X" % a for a in (got or [])), sorted("%06X" % a for a in want))
         return None
     # H: second segment holds only rejected lines -> table identical to the one after segment 1
     segs = pyspec.case_segments(parts)
